@@ -6,22 +6,30 @@ import runner
 ID = "C13"
 LEAN_MODULES = ["Properties.C13"]
 THEOREMS = ["EngineModel.Properties.C13." + t for t in [
-    "detect_version", "detect_sound", "C13_exact", "C13_stamp", "C13_reload",
-    "C13_no_misidentification", "C13_unsupported_iff", "C13_layout", "C13_create_or_load"]]
+    "detect_version", "detect_sound", "C13_exact", "C13_stamp", "C13_reload", "C13_unsupported_iff",
+    "C13_detect_exact", "C13_narrowing_counterexample", "C13_load_exact", "C13_layout",
+    "C13_no_misidentification", "C13_version_marker_injective", "C13_spec_table", "C13_create_or_load"]]
 ASSUMPTIONS = [
     "the Spec table (schema <-> version triple, 1.18.0 variants told apart by the isExternalTrack NUMERIC marker) is "
-    "read from the public header engine_schema.hpp; (3,0,0) is in the table because the library ships schema_3_0_0 "
-    "and the unedited reference test requires the 4.1.0 dump to load",
-    "a legacy-layout directory stamped with a 2.x/3.x triple loads with that schema; a Database2 directory stamped "
-    "1.x is database_inconsistency (modelled as the code does; neither is a misidentification)",
-    "reading the Information row and the PRAGMA table_info marker is SQLite's job (correspondence only)",
+    "the public header's: enumerators, to_string and supported_schemas of engine_schema.hpp are re-read on every run "
+    "(Gen) and C13_spec_table proves the hand-written Lean table equal to them; (3,0,0) is in the table because the "
+    "library ships schema_3_0_0 and the unedited reference test requires the 4.1.0 dump to load",
+    "three refusals the property text does not spell out are part of the Spec (specLoad) and reported as "
+    "database_inconsistency: a legacy library without p.db (fix 6269a0f), an m.db without exactly one Information "
+    "entry in sqlite_master, a Database2 directory stamped 1.x; a legacy directory stamped 2.x/3.x loads with that "
+    "schema, as the text demands (each supported triple maps to its schema) - see design/C13.md",
+    "the translator recognises (does not translate) four library idioms: path_exists(directory + literal) = presence "
+    "bit, the COUNT(*) query on sqlite_master = World.tableCount, the SELECT of the three version columns tied "
+    "positionally to variables, the PRAGMA-based marker query; SQLite's execution of these is correspondence only "
+    "(one Information row with INTEGER values is assumed: 0 or >1 rows / non-integer cells are outside the model)",
 ]
 MANIFEST = dict(
-    text='Theorem C13_exact: the decision tree regenerated from schema.cpp on every run equals the public version table on all integer triples and both marker values (unbounded Int), with C13_no_misidentification, C13_unsupported_iff, C13_reload, C13_layout, C13_create_or_load; tied to the code by the clang-AST translator and by loading real directories with planted version triples (both layouts, four presence combinations) against both the generated tree and the Spec table.',
-    note="Trusted: Lean kernel; translator tools/tr_detect.py; SQLite's reading of the Information row and of PRAGMA table_info (correspondence only). (3,0,0) is in the Spec table (see DESIGN.md C13).",
-    technique='Lean 4 theorem over a model regenerated from source (translator) + differential loading of planted directories',
+    text='Theorems about functions regenerated from the source on every run: C13_detect_exact (the whole of detect_schema - Information lookup, the three STORED 64-bit numbers, the fits_int guard, the narrowing to int, the nested switch - equals the public version table on every integer triple and both markers; the historical truncation 2^40 -> 0 is inside its domain, C13_narrowing_counterexample), C13_load_exact (load_database with detect_is_database2 / load_legacy_sqlite_database / load_database2_sqlite_database / load_existing equals the Spec specLoad for all 16 presence combinations of directory, m.db, p.db, Database2/m.db), C13_layout (every layout conjunct incl. Database2+1.x stamp and legacy+2.x stamp), C13_no_misidentification on the whole load path, C13_version_marker_injective, C13_spec_table (the Lean table = engine_schema.hpp as re-read this run), C13_reload, C13_stamp, C13_create_or_load; tied by the clang-AST translator and by loading real planted directories (presence sets, 0/1/2 Information entries, 64-bit triples incl. values that narrow onto supported ones) against the generated functions and the Spec.',
+    note="Trusted: Lean kernel; translators tools/tr_detect.py + tr_detect_full.py (what they recognise rather than translate is listed in the assumptions); SQLite's reading of the Information row and of PRAGMA table_info (correspondence only). (3,0,0) is in the Spec table (see DESIGN.md C13).",
+    technique='Lean 4 theorems over a model regenerated from source (translator) + differential loading of planted directories',
     ref='6/C13')
-TRUSTED_EXTRA = ["tools/tr_detect.py (clang-14 JSON AST -> Lean translator for detect_schema and the schema_version constants)"]
+TRUSTED_EXTRA = ["tools/tr_detect.py + tools/tr_detect_full.py (clang-14 JSON AST -> Lean translator for detect_schema, the layout "
+                 "dispatch of load_database, the schema_version constants and the public table of engine_schema.hpp)"]
 
 
 def _translate():
@@ -36,62 +44,87 @@ SUPPORTED = [(1, 6, 0), (1, 7, 1), (1, 9, 1), (1, 11, 1), (1, 13, 0), (1, 13, 1)
              (1, 18, 0), (2, 18, 0), (2, 20, 1), (2, 20, 2), (2, 20, 3), (2, 21, 0), (2, 21, 1), (2, 21, 2), (3, 0, 0)]
 
 
+PRESENCES = ["-", "L", "P", "D", "LP", "LD", "PD", "LPD", "X", "XLPD"]
+W32 = 2 ** 32
+
+
 def tie(ctx):
     rng = random.Random(ctx.seed * 31337 + 13)
+    thorough = ctx.tier == "thorough"
     cases = set()
-    # every supported triple and all its neighbours at distance 1 in each coordinate, both markers, both layouts
+    # every supported triple and its neighbours, both markers, the two loadable layouts
     for (a, b, c) in SUPPORTED:
         for da in (-1, 0, 1):
             for db in (-1, 0, 1):
                 for dc in (-1, 0, 1):
-                    if abs(da) + abs(db) + abs(dc) <= (3 if ctx.tier == "thorough" else 1):
+                    if abs(da) + abs(db) + abs(dc) <= (3 if thorough else 1):
                         for m in (0, 1):
-                            for pres in ("L", "D"):
-                                cases.add((pres, a + da, b + db, c + dc, m))
+                            for pres in ("LP", "D"):
+                                cases.add((pres, 1, a + da, b + db, c + dc, m))
     # the box of the property's quantifier
     box = [(a, b, c) for a in range(-1, 5) for b in range(-1, 24) for c in range(-1, 5)]
-    if ctx.tier == "quick":
-        box = rng.sample(box, 500)
+    if not thorough:
+        box = rng.sample(box, 400)
     for (a, b, c) in box:
-        cases.add((rng.choice("LD"), a, b, c, rng.randrange(2)))
-        if ctx.tier == "thorough":
+        cases.add((rng.choice(["LP", "D"]), 1, a, b, c, rng.randrange(2)))
+        if thorough:
             for m in (0, 1):
-                for pres in ("L", "D"):
-                    cases.add((pres, a, b, c, m))
-    # presence combinations
+                for pres in ("LP", "D"):
+                    cases.add((pres, 1, a, b, c, m))
+    # presence combinations x number of Information entries
     for (a, b, c) in SUPPORTED + [(0, 0, 0), (9, 9, 9)]:
-        for pres in ("N", "LD"):
-            cases.add((pres, a, b, c, 0))
-    # far-away values
-    for v in (2 ** 31 - 1, -2 ** 31, 2 ** 40, -7):
-        cases.add(("L", v, 6, 0, 0)); cases.add(("D", 2, v, 0, 0)); cases.add(("L", 1, 6, v, 1))
-    cases = sorted(cases)
-    lines = ["plant %s %d %d %d %d" % c for c in cases]
+        for pres in PRESENCES:
+            for tc in (0, 1, 2):
+                if thorough or tc == 1 or rng.random() < 0.25:
+                    cases.add((pres, tc, a, b, c, rng.randrange(2)))
+    # stored 64-bit values: far away, and values that NARROW onto a supported component
+    far = [2 ** 31 - 1, -2 ** 31, 2 ** 31, 2 ** 40, -7, 2 ** 63 - 1, -2 ** 63, W32, -W32]
+    for v in far:
+        cases.add(("LP", 1, v, 6, 0, 0)); cases.add(("D", 1, 2, v, 0, 0)); cases.add(("LP", 1, 1, 6, v, 1))
+    for (a, b, c) in (SUPPORTED if thorough else rng.sample(SUPPORTED, 8)):
+        for k in (1, -1, 2 ** 8, 2 ** 31 - 1, -2 ** 31):
+            pres = "LP" if a == 1 else "D"
+            cases.add((pres, 1, a + k * W32, b, c, 0))
+            cases.add((pres, 1, a, b + k * W32, c, 1))
+            cases.add((pres, 1, a, b, c + k * W32, 0))
+            cases.add((pres, 1, a + k * W32, b + k * W32, c + k * W32, 1))
+    cases = sorted(c for c in cases if all(-2 ** 63 <= v < 2 ** 63 for v in c[2:5]))
+    lines = ["plant2 %s %d %d %d %d %d" % c for c in cases]
     scripts = runner.shard(lines, NCPU)
     hout = [o for (outs, _) in runner.run_harness(scripts, stateless=True) for o in outs]
     mout = [o for outs in runner.run_model(scripts) for o in outs]
     sout = [o for outs in runner.run_model([["spec." + l for l in s] for s in scripts]) for o in outs]
     divergences, violations = [], []
-    hist = {}
+    hist = {"wide_values": 0, "narrow_onto_supported": 0}
     for i, l in enumerate(lines):
-        hist[hout[i].split()[-1] if hout[i].startswith("throw") else "loaded"] = \
-            hist.get(hout[i].split()[-1] if hout[i].startswith("throw") else "loaded", 0) + 1
+        key = hout[i].split()[-1] if hout[i].startswith("throw") else ("loaded" if hout[i].startswith("ok") else hout[i][:20])
+        hist[key] = hist.get(key, 0) + 1
+        c = cases[i]
+        hist["presence_" + c[0]] = hist.get("presence_" + c[0], 0) + 1
+        hist["tables_%d" % c[1]] = hist.get("tables_%d" % c[1], 0) + 1
+        if any(not (-2 ** 31 <= v < 2 ** 31) for v in c[2:5]):
+            hist["wide_values"] += 1
+            nar = tuple(((v + 2 ** 31) % W32) - 2 ** 31 for v in c[2:5])
+            if nar in SUPPORTED:
+                hist["narrow_onto_supported"] += 1
         if hout[i] != mout[i]:
             divergences.append({"input": l, "impl": hout[i], "model": mout[i]})
         if hout[i] != sout[i]:
             violations.append({"tag": "oracle", "signature": None,
                                "header": {"kind": "input",
-                                          "what": "load outcome differs from the public version table"},
+                                          "what": "load outcome differs from the Spec (public version table + layout rules)"},
                                "body": [l, "impl: " + hout[i], "spec: " + sout[i]]})
     loaded = sum(1 for o in hout if o.startswith("ok"))
     return {
         "ok": not divergences and not violations,
         "evaluations": len(lines),
         "distinct_nontrivial": loaded,
-        "rule": "version triples planted into the Information table of real directories: every supported triple and its "
-                "neighbours, a box (-1..4)x(-1..23)x(-1..4) (sampled in quick tier, complete in thorough), both markers, "
-                "both layouts, all four presence combinations, far-away values; real load_database outcome vs the "
-                "generated decision tree and vs the Spec table; non-trivial = cases that load successfully",
+        "rule": "real directories planted by a plain sqlite3 connection: presence sets over {directory, m.db, p.db, "
+                "Database2/m.db}, 0/1/2 sqlite_master entries named Information, version triples = every supported "
+                "triple and its neighbours, a box (-1..4)x(-1..23)x(-1..4) (sampled in quick tier, complete in thorough), "
+                "both markers, 64-bit values far away and values congruent to a supported component modulo 2^32; real "
+                "load_database outcome vs the generated loadDatabaseGen and vs the Spec specLoad; non-trivial = cases that "
+                "load successfully",
         "samples": lines[:3] + lines[-2:],
         "histograms": hist,
         "divergences": divergences[:20],
